@@ -8,13 +8,14 @@ import (
 	"verif/factgen/fg"
 )
 
-// C25: the three code facts the Lean model is parameterised by, plus the fixed shapes the model
+// C25: the four code facts the Lean model is parameterised by, plus the fixed shapes the model
 // hard-codes (resume only on attempt > 1, ReadToAt fallback, staging/rename order, cleanup calls,
 // digest comparison last in Fetch).
 //
 //	statPartFallback    LocalBackend.StatFile stats partPath(fullPath) when the final file is absent
 //	deleteRemovesPart   LocalBackend.Delete removes partPath(fullPath) before touching the final path
 //	presenceNeedsFinal  processEntry's "already present" shortcut also requires the final file (Exists)
+//	promoteAfterVerdict WriteReader copies the caller's un-limited reader and renames only after it returned nil
 func main() { fg.Main("C25", c25) }
 
 var ws = regexp.MustCompile(`\s+`)
@@ -144,12 +145,47 @@ func c25(repo string, out *fg.Out) error {
 	for _, s := range []string{
 		"stagingPath := partPath(fullPath)",
 		"os.OpenFile(stagingPath, os.O_WRONLY|os.O_CREATE|os.O_TRUNC, 0600)",
-		"written, copyErr := io.Copy(stagingFile, reader)",
+		"written, copyErr := io.Copy(stagingFile, ",
 		"os.Rename(stagingPath, fullPath)",
 	} {
 		if !strings.Contains(wtxt, s) {
 			return fmt.Errorf("WriteReader: missing %q", s)
 		}
+	}
+	// promoteAfterVerdict: the copy drains the CALLER's reader itself (so it ends only with the
+	// EOF/err the puller's pipe delivers after Fetch returned), not a size-bounded or otherwise
+	// wrapped view of it, and `reader` is not re-bound before the copy.
+	promoteAfterVerdict := false
+	{
+		copies := fg.CallsNamed(wr.Body, "Copy")
+		if len(copies) != 1 || len(copies[0].Args) != 2 {
+			return fmt.Errorf("WriteReader: expected exactly one io.Copy(stagingFile, …)")
+		}
+		src := norm(loc.Text(copies[0].Args[1]))
+		rebound := false
+		ast.Inspect(wr.Body, func(n ast.Node) bool {
+			if as, ok := n.(*ast.AssignStmt); ok {
+				for _, l := range as.Lhs {
+					if id, ok := l.(*ast.Ident); ok && id.Name == "reader" {
+						rebound = true
+					}
+				}
+			}
+			return true
+		})
+		hasParam := false
+		for _, fl := range wr.Type.Params.List {
+			for _, nm := range fl.Names {
+				if nm.Name == "reader" && norm(loc.Text(fl.Type)) == "io.Reader" {
+					hasParam = true
+				}
+			}
+		}
+		if !hasParam {
+			return fmt.Errorf("WriteReader: parameter `reader io.Reader` not found")
+		}
+		promoteAfterVerdict = src == "reader" && !rebound
+		out.JSON["write_reader_copy_source"] = src
 	}
 	iCopyRet := strings.Index(wtxt, `if copyErr != nil {`)
 	iRename := strings.Index(wtxt, "os.Rename(stagingPath, fullPath)")
@@ -319,12 +355,13 @@ func c25(repo string, out *fg.Out) error {
 	fmt.Fprintf(w, "import Arc.Model.C25\n")
 	fmt.Fprintf(w, "namespace Arc.Generated.C25\n")
 	fmt.Fprintf(w, "/-- read off LocalBackend.StatFile / LocalBackend.Delete / Puller.processEntry of the current source -/\n")
-	fmt.Fprintf(w, "def facts : Arc.C25.Facts :=\n  { statPartFallback := %s, deleteRemovesPart := %s, presenceNeedsFinal := %s }\n",
-		b(statPartFallback), b(deleteRemovesPart), b(presenceNeedsFinal))
+	fmt.Fprintf(w, "def facts : Arc.C25.Facts :=\n  { statPartFallback := %s, deleteRemovesPart := %s, presenceNeedsFinal := %s,\n    promoteAfterVerdict := %s }\n",
+		b(statPartFallback), b(deleteRemovesPart), b(presenceNeedsFinal), b(promoteAfterVerdict))
 	fmt.Fprintf(w, "end Arc.Generated.C25\n")
 	out.JSON["stat_part_fallback"] = statPartFallback
 	out.JSON["delete_removes_part"] = deleteRemovesPart
 	out.JSON["presence_needs_final"] = presenceNeedsFinal
+	out.JSON["promote_after_verdict"] = promoteAfterVerdict
 	out.JSON["presence_condition"] = cond
 	return nil
 }
